@@ -136,6 +136,7 @@ namespace vh
     void run_##NAME (const vh::Program& p, const vh::RunOptions& o, vh::RunResult& r)              \
     {                                                                                              \
       vh::reset_globals ();                                                                        \
+      vh::construct_counters () = vh::ConstructCounters ();                                        \
       vh::Interp<vh::FLAV, NN, MM, ALLOC> *it = new vh::Interp<vh::FLAV, NN, MM, ALLOC> (o, r);    \
       it->run (p);                                                                                 \
       delete it;                                                                                   \
